@@ -21,7 +21,7 @@ def scenarios(tier, seed):
     seeds = [1] if tier == "quick" else [1, 2, 3]
     for gi, (n, edges) in enumerate(fam):
         for (tau, gamma) in rates:
-            for sim in simruns.ALL:
+            for sim in simruns.ALL + [simruns.RULE_SIM]:
                 kind = simruns.kind_of(sim)
                 disc = simruns.is_discrete(sim)
                 if disc:
@@ -38,13 +38,17 @@ def scenarios(tier, seed):
                         inits.append({"initial_infecteds": [2], "initial_recovereds": [1]})
                     for ik in inits:
                         for s in seeds:
-                            for weighted in ([False, True] if simruns.supports_weights(sim) and tau * gamma > 0 else [False]):
+                            for weighted in ([False, True, "tiny"] if simruns.supports_weights(sim) and tau * gamma > 0 else [False]):
                                 w = None
                                 if weighted:
-                                    w = {"g": [1.0 + (u % 3) * 0.5 for u in range(n)], "w": [0.5 + (i % 4) * 0.5 for i in range(len(edges))]}
+                                    # "tiny": all rates of the order 1e-9 (slow processes measured in a small time unit)
+                                    unit = 1.0 if weighted is True else 1.0e-9
+                                    w = {"g": [unit * (1.0 + (u % 3) * 0.5) for u in range(n)], "w": [unit * (0.5 + (i % 4) * 0.5) for i in range(len(edges))]}
+                                    if weighted == "tiny" and (tmax is not None or s != seeds[0]):
+                                        continue
                                 out.append({"sim": sim, "n": n, "edges": edges, "weights": w, "tau": tau, "gamma": gamma,
                                             "p": {0.0: 0.0, 1.0: 0.5, 2.0: 1.0}[tau], "tmin": tmin, "tmax": tmax,
-                                            "init_kw": ik, "weighted": weighted, "seed": s * 7919 + gi})
+                                            "init_kw": ik, "weighted": bool(weighted), "tiny": weighted == "tiny", "seed": s * 7919 + gi})
     # generic simulators: any user model, the legal moves are the model's own edges
     from harness import contagion
     mrng = pyrandom.Random(seed + 404)
@@ -333,6 +337,8 @@ def _cls(sc):
         c.append("zero-rate")
     if sc["tmax"] is not None:
         c.append("finite-tmax")
+    if sc.get("tiny"):
+        c.append("tiny-weights")
     return "+".join(c) or "plain"
 
 
